@@ -162,6 +162,16 @@ func TestC20(t *testing.T) {
 		}
 		add(sp)
 	}
+	// zero-padded bare integers are decimal seconds too ("010" is ten, not eight)
+	for i := 0; i < r.Pick(2, 24); i++ {
+		dv := []durVal{{"010", 10 * time.Second}, {"0010", 10 * time.Second}, {"011", 11 * time.Second}}[i%3]
+		sp := c20Spec{Kind: "dur", Var: []string{"recv-timeout", "send-delay"}[i%2], Val: dv.Text, ValNs: int64(dv.D), Tr: trs[rnd.Intn(2)],
+			AForm: rnd.Intn(nAddrForms), FForm: rnd.Intn(3), DLen: 1 + rnd.Intn(40), DCls: 3, DForm: rnd.Intn(2), Proto: "push"}
+		if sp.Var == "recv-timeout" {
+			sp.Proto = recvProtos[rnd.Intn(7)]
+		}
+		add(sp)
+	}
 	for i := 0; i < nRej; i++ {
 		sp := c20Spec{Kind: "reject", Var: rejects[(i+off)%len(rejects)], Tr: trs[rnd.Intn(2)], AForm: rnd.Intn(nAddrForms),
 			DLen: 1 + rnd.Intn(30), DCls: 3, DForm: rnd.Intn(3)}
